@@ -1,3 +1,15 @@
-From Asynq Require Import Machine.
-Theorem C02_placeholder : True. Proof. exact I. Qed.
-Print Assumptions C02_placeholder.
+(* C02 — failures propagate like sequential exceptions.  Pure theorems about asynq's unwrap
+   (async_task.py 427-470) for every yielded structure, of any nesting and size:
+   unwrap fails iff some leaf fails, with the error of the FIRST failing leaf in written order
+   (a non-future object counts as a failing leaf carrying TypeError), and succeeds iff every leaf
+   succeeded.  The scheduling half (delivery only after all siblings completed, same exception
+   instance) is covered by the correspondence and the in-process monitors, not by a theorem. *)
+From Asynq Require Import Prog proofs.ProgProofs.
+
+Theorem C02_first_failing_future_wins : forall (A : Type) (look : A -> outcome) (s : ystruct A),
+  match unwrap look s with
+  | Err e => first_err (map look (leaves s)) = Some e
+  | Ok _ => first_err (map look (leaves s)) = None
+  end.
+Proof. exact (fun A look s => unwrap_first_error look s). Qed.
+Print Assumptions C02_first_failing_future_wins.
